@@ -407,3 +407,6 @@ def run_case(case):
   common.tf_init()
   common.reset_keras()
   return {"parse": run_parse, "hostile": run_hostile, "order": run_order, "print": run_print}[case["sub"]](case)
+
+# (appended: sub-lattices added after the seeded waves; kept out of the original RULE text for readability)
+RULE = RULE + "; history: every sequence (depth 3 quick / 4 thorough) of safe_eval invocations sharing their argument text - plain, with caller-supplied keyword, with caller-supplied positional argument, under another class - each judged against Python's own call"
